@@ -7,6 +7,7 @@ import (
 	"fmt"
 	"os"
 	"path/filepath"
+	"strings"
 
 	"github.com/33cn/chain33/common/merkle"
 	"github.com/33cn/chain33/types"
@@ -39,15 +40,17 @@ type InvReq struct {
 }
 
 type InvRes struct {
-	Case         InvCase  `json:"case"`
-	SameHash     bool     `json:"same_hash"` // mutant keeps the genuine block's hash
-	DeliverErr   string   `json:"deliver_err"`
-	SideEffects  []string `json:"side_effects,omitempty"` // clause (i)
-	Poison       []string `json:"poison,omitempty"`       // clause (ii)
-	Skipped      string   `json:"skipped,omitempty"`
-	MutantHash   string   `json:"mutant_hash"`
-	GenuineErr   string   `json:"genuine_err,omitempty"`
-	TipAfter     string   `json:"tip_after"` // after the mutant: unchanged | forkpoint | mutant | other
+	Case        InvCase  `json:"case"`
+	SameHash    bool     `json:"same_hash"` // mutant keeps the genuine block's hash
+	DeliverErr  string   `json:"deliver_err"`
+	SideEffects []string `json:"side_effects,omitempty"` // clause (i)
+	Poison      []string `json:"poison,omitempty"`       // clause (ii)
+	Skipped     string   `json:"skipped,omitempty"`
+	MutantHash  string   `json:"mutant_hash"`
+	GenuineErr  string   `json:"genuine_err,omitempty"`
+	TipAfter    string   `json:"tip_after"`              // after the mutant: unchanged | forkpoint | mutant | other
+	SeqProblems []string `json:"seq_problems,omitempty"` // C26: the sequence log after the whole case (rejected mutant, genuine block, child)
+	SeqDeletes  int      `json:"seq_deletes"`
 }
 
 // InvTreeSpec: trunk of 14 (heights 1..14), heavy side branch A13,A14 forking at height 12.
@@ -316,6 +319,14 @@ func RunInvalid(dir string, t *Tree, cs InvCase) InvRes {
 	hdr, _ = n.Chain.ProcGetLastHeaderMsg()
 	if hdr == nil || !bytes.Equal(hdr.Hash, cb.Hash(n.Cfg)) {
 		res.Poison = append(res.Poison, fmt.Sprintf("child of the genuine block not accepted as best tip: err=%v", cerr))
+	}
+	// C26 oracle on the final state: the sequence log replays to the best chain although a block was rejected on the way
+	sf := TakeSnap(n, nil, nil, false)
+	res.SeqProblems, _ = seqFinal(sf)
+	for _, q := range sf.Seqs {
+		if strings.HasPrefix(q, "2:") {
+			res.SeqDeletes++
+		}
 	}
 	return res
 }
